@@ -498,8 +498,8 @@ int main(int argc,char **argv)
 	bool client = (g_loc=="client");
 	tr.open();
 	unsigned long seed=vt::envl("VERIF_SEED",1);
-	vt::rng R(seed*1000003u + g_loc.size()*131 + how0*17 + (polite?5:0) + (g_storage=="files"?3:0));
 	long sh_i=0,sh_n=1; if(getenv("VERIF_SHARD")) sscanf(getenv("VERIF_SHARD"),"%ld/%ld",&sh_i,&sh_n);
+	vt::rng R(seed*1000003u + g_loc.size()*131 + how0*17 + (polite?5:0) + (g_storage=="files"?3:0) + (mode=="rand" ? sh_i*7919 : 0));
 	long execs=0;
 	if(mode=="exh") {
 		if(argc<8) return 2;
